@@ -92,6 +92,8 @@ pub fn dispatch(which: &str, v: &Value, case: &Value) -> Value {
         "c04_id" => c04_id(v, check),
         "c05_fuse" => c05_fuse(v),
         "c08_rule" => c08_rule(v, check),
+        // a positional mismatch can hit any field: run the whole battery
+        "c08_order" => c08_rule(v, "mask hostname tag domain modifier_option pattern id raw_line"),
         "c11_split" => c11_split(v),
         "c12_scheme" => c12_scheme(v),
         "c12_types" => c12_types(v),
